@@ -223,9 +223,10 @@ Definition fe_set_b32_limit (b : list N) : option Z :=
   then None else Some v.
 
 (* secp256k1_ge_set_xo_var(r, x, odd): y = sqrt(x^3 + 7); negate y if its parity differs from odd; ret = sqrt ok *)
-Definition ge_set_xo (x : Z) (odd : bool) : option (Z * Z) :=
-  let '(y, ok) := fsqrt (curve_rhs x) in
+Definition ge_set_xo_with (sqrtf : Z -> Z * bool) (x : Z) (odd : bool) : option (Z * Z) :=
+  let '(y, ok) := sqrtf (curve_rhs x) in
   if ok then Some (x, if Bool.eqb (Z.odd y) odd then y else fneg y) else None.
+Definition ge_set_xo : Z -> bool -> option (Z * Z) := ge_set_xo_with fsqrt.
 
 (* secp256k1_eckey_pubkey_parse + secp256k1_ec_pubkey_parse *)
 Definition ec_pubkey_parse (pub : list N) : option (Z * Z) :=
